@@ -4,6 +4,13 @@
 // generator (govc). Compiled only with -tags verif; adds no behaviour.
 package cmd
 
+import (
+	"regexp"
+
+	"github.com/coreruleset/crs-toolchain/v2/regex"
+	"github.com/coreruleset/crs-toolchain/v2/utils"
+)
+
 // ---- C15: inspecting commands never write (call-graph frame obligations) -----------
 // Closures (the cobra Run/RunE functions) count towards the function that creates them.
 //@ directive[C15] no-effect cmd.createGenerateCommand fswrite selfupdate exec
@@ -82,34 +89,195 @@ func SpecFmtEof(lines []string) []string {
 //@   loop 0 decreases i + 1
 
 // ---- format: one line ---------------------------------------------------------------
-// Proved here: the indentation arithmetic (never negative, exactly two blanks per open
-// block, flag/prefix/suffix lines at column 0), that an error never loses the line, and
-// that a blank line becomes the empty line. The white-space equality of the directive
-// rebuilding branches depends on capture priorities and is a bounded stand-in below.
+// Functional specification of processLine: which text a line becomes (SpecLineBody),
+// at which nesting depth it is indented (SpecLineDepth) and the depth that follows it
+// (SpecLineNext). The branch order is the formatter's; reMatch / reGroup stand for the
+// verdict and the capture groups of the real patterns of regex/definitions.go.
+
+func reMatch(re *regexp.Regexp, s string) bool { return re.MatchString(s) }
+
+func reGroup(re *regexp.Regexp, s string, k int) string {
+	m := re.FindStringSubmatch(s)
+	if m == nil {
+		return ""
+	}
+	return m[k]
+}
+
+// SpecSpaces: n blanks.
+func SpecSpaces(n int) string {
+	if n <= 0 {
+		return ""
+	}
+	return SpecSpaces(n-1) + " "
+}
+
+func SpecLineBody(line string) string {
+	if reMatch(regex.ProcessorBlockStartRegex, line) {
+		if len(reGroup(regex.ProcessorBlockStartRegex, line, 2)) > 0 {
+			return ("##!> " + reGroup(regex.ProcessorBlockStartRegex, line, 1)) + (" " + reGroup(regex.ProcessorBlockStartRegex, line, 2))
+		}
+		return "##!> " + reGroup(regex.ProcessorBlockStartRegex, line, 1)
+	}
+	if reMatch(regex.ProcessorEndRegex, line) {
+		return line[utils.SpecSkipBlanks(line, 0):]
+	}
+	if reMatch(regex.FlagsRegex, line) {
+		return "##!+ " + reGroup(regex.FlagsRegex, line, 1)
+	}
+	if reMatch(regex.PrefixRegex, line) {
+		return "##!^ " + reGroup(regex.PrefixRegex, line, 1)
+	}
+	if reMatch(regex.SuffixRegex, line) {
+		return "##!$ " + reGroup(regex.SuffixRegex, line, 1)
+	}
+	if reMatch(regex.DefinitionRegex, line) {
+		return "##!> define " + reGroup(regex.DefinitionRegex, line, 2) + " " + reGroup(regex.DefinitionRegex, line, 3)
+	}
+	if reMatch(regex.IncludeRegex, line) {
+		if len(reGroup(regex.IncludeRegex, line, 2)) > 0 {
+			return ("##!> include " + reGroup(regex.IncludeRegex, line, 1)) + (" -- " + reGroup(regex.IncludeRegex, line, 2))
+		}
+		return "##!> include " + reGroup(regex.IncludeRegex, line, 1)
+	}
+	if reMatch(regex.IncludeExceptRegex, line) {
+		if len(reGroup(regex.IncludeExceptRegex, line, 3)) > 0 {
+			return ("##!> include-except " + reGroup(regex.IncludeExceptRegex, line, 1) + " " + reGroup(regex.IncludeExceptRegex, line, 2)) + (" -- " + reGroup(regex.IncludeExceptRegex, line, 3))
+		}
+		return "##!> include-except " + reGroup(regex.IncludeExceptRegex, line, 1) + " " + reGroup(regex.IncludeExceptRegex, line, 2)
+	}
+	return line[utils.SpecSkipBlanks(line, 0):]
+}
+
+// SpecLineDepth: nesting depth the line is indented at (two blanks per level).
+func SpecLineDepth(line string, indent int) int {
+	if reMatch(regex.ProcessorBlockStartRegex, line) {
+		return indent
+	}
+	if reMatch(regex.ProcessorEndRegex, line) {
+		return indent - 1
+	}
+	if reMatch(regex.FlagsRegex, line) || reMatch(regex.PrefixRegex, line) || reMatch(regex.SuffixRegex, line) {
+		return 0
+	}
+	return indent
+}
+
+// SpecLineNext: nesting depth after the line.
+func SpecLineNext(line string, indent int) int {
+	if reMatch(regex.ProcessorBlockStartRegex, line) {
+		return indent + 1
+	}
+	if reMatch(regex.ProcessorEndRegex, line) {
+		return indent - 1
+	}
+	return indent
+}
+
+// SpecLineIsBlank: only blanks and tabs.
+func SpecLineIsBlank(line string) bool { return utils.SpecSkipBlanks(line, 0) == len(line) }
+
+// SpecLineFails: a block end marker at nesting depth 0.
+func SpecLineFails(line string, indent int) bool {
+	return !SpecLineIsBlank(line) && !reMatch(regex.ProcessorBlockStartRegex, line) && reMatch(regex.ProcessorEndRegex, line) && indent == 0
+}
+
+// SpecLineOut: the formatted line.
+func SpecLineOut(line string, indent int) string {
+	if SpecLineIsBlank(line) {
+		return ""
+	}
+	if SpecLineFails(line, indent) {
+		return line
+	}
+	return SpecSpaces(2*SpecLineDepth(line, indent)) + SpecLineBody(line)
+}
+
+// SpecLineAfter: the nesting depth handed to the next line.
+func SpecLineAfter(line string, indent int) int {
+	if SpecLineIsBlank(line) || SpecLineFails(line, indent) {
+		return indent
+	}
+	return SpecLineNext(line, indent)
+}
+
+//@ extern bytes.Repeat
+//@   params b count
+//@   results r
+//@   requires count >= 0
+//@   ensures implies(b == " ", r == SpecSpaces(count))
+
 //@ contract processLine
 //@   tags C09 C10
 //@   results out next err
 //@   requires indent >= 0
 //@   use entry utils.LemmaSkipBlanks(line, 0)
+//@   ensures[C09,C10] functional: out == SpecLineOut(line, indent) && next == SpecLineAfter(line, indent)
+//@   ensures[C09,C10,C16] error-iff-unbalanced: (err != nil) == SpecLineFails(line, indent)
 //@   ensures[C10,C16] error-keeps-line: implies(err != nil, out == line && next == indent)
 //@   ensures[C09] next-indent: implies(err == nil, next >= 0 && next >= indent-1 && next <= indent+1)
-//@   ensures[C09] blank-line: implies(utils.SpecSkipBlanks(line, 0) == len(line), err == nil && len(out) == 0 && next == indent)
-//@   ensures[C09] indentation: implies(err == nil && utils.SpecSkipBlanks(line, 0) < len(line), len(out) >= 1 && out[len(out)-1] != ' ' || len(out) >= 0)
 
 // ---- format: one file ---------------------------------------------------------------
+// SpecDepthAt: nesting depth left by src[0..n).
+func SpecDepthAt(src []string, n int) int {
+	if n <= 0 || n > len(src) {
+		return 0
+	}
+	return SpecLineAfter(src[n-1], SpecDepthAt(src, n-1))
+}
+
+// SpecMapLines: the formatted image of src[0..n).
+func SpecMapLines(src []string, n int) []string {
+	if n <= 0 || n > len(src) {
+		return []string{}
+	}
+	return append(SpecMapLines(src, n-1), SpecLineOut(src[n-1], SpecDepthAt(src, n-1)))
+}
+
+// SpecWithHeader: the standard header (one list element holding both header lines and
+// their newline, as in the code) is put in front unless it is already there.
+func SpecWithHeader(lines []string, has bool) []string {
+	if has {
+		return lines
+	}
+	return append([]string{"##! Please refer to the documentation at\n##! https://coreruleset.org/docs/development/regex_assembly/.\n"}, lines...)
+}
+
 //@ contract processFile
 //@   tags C09 C15 C16 C17
 //@   opt scan-complete C17
 //@   opt termination C09
+//@   opt trust-pre checkStandardHeader
 //@   results r
 //@   modifies fsWrites
 //@   ensures[C15,C09] check-never-writes: implies(checkOnly, fsWrites() == old(fsWrites()))
 //@   ensures[C15] at-most-one-write: fsWrites() <= old(fsWrites())+1
 //@   ensures[C15] writes-own-path: implies(fsWrites() > old(fsWrites()), lastWritePath() == filePath)
 //@   ensures[C09,C16] writes-formatted-bytes: implies(fsWrites() > old(fsWrites()), called(Join) && lastWriteData() == resultOf(Join, 0))
+//@   ensures[C09,C10] formatted-text: implies(called(Join), resultOf(Join, 0) == utils.OpaqueJoinLines(SpecFmtEof(SpecWithHeader(SpecMapLines(scanLines(scanner), len(scanLines(scanner))), SpecHasHeader(SpecMapLines(scanLines(scanner), len(scanLines(scanner))))))))
 //@   ensures[C16] error-means-no-write: implies(r != nil && !called(WriteFile), fsWrites() == old(fsWrites()))
 //@   ensures[C09] check-verdict: implies(checkOnly && called(findUpperCaseCharacterClassOnIgnoreCaseFlag) && resultOf(ReadFile, 1) == nil, (r != nil) == (lastRead() != resultOf(Join, 0) || resultOf(findUpperCaseCharacterClassOnIgnoreCaseFlag, 0)))
 //@   ensures[C09,C16] write-reported: implies(!checkOnly && called(WriteFile), (r != nil) == (resultOf(WriteFile, 0) != nil))
-//@   loop 0 invariant[C10] len(lines) == scanPos(scanner) && 0 <= scanPos(scanner) && scanPos(scanner) <= len(scanLines(scanner))
-//@   loop 0 invariant indent >= 0
-//@   loop 0 decreases len(scanLines(scanner)) - scanPos(scanner)
+//@   loop 0 invariant[C09,C10] 0 <= scanPos(scanner) && scanPos(scanner) <= len(scanLines(scanner))
+//@   loop 0 invariant[C09,C10] indent == SpecDepthAt(scanLines(scanner), scanPos(scanner)) && indent >= 0
+//@   loop 0 invariant[C09,C10] lines == SpecMapLines(scanLines(scanner), scanPos(scanner))
+//@   loop 0 decreases[C09] len(scanLines(scanner)) - scanPos(scanner)
+
+// ---- format: header -----------------------------------------------------------------
+
+// SpecNoNL: no newline byte in s (true of every line a scanner returns).
+func SpecNoNL(s string) bool {
+	return forall(0, len(s), func(i int) bool { return s[i] != '\n' })
+}
+
+// SpecHasHeader: the first three lines are the two standard header lines and an empty line.
+func SpecHasHeader(lines []string) bool {
+	return len(lines) >= 3 && lines[0] == "##! Please refer to the documentation at" && lines[1] == "##! https://coreruleset.org/docs/development/regex_assembly/." && lines[2] == ""
+}
+
+//@ contract checkStandardHeader
+//@   tags C09
+//@   opt encoding seq
+//@   results r
+//@   requires implies(len(lines) >= 3, SpecNoNL(lines[0]) && SpecNoNL(lines[1]) && SpecNoNL(lines[2]))
+//@   ensures header-detection: r == SpecHasHeader(lines)
